@@ -1,12 +1,15 @@
 SPECIFICATION Spec
 CONSTANTS
-  Cases <- cCases
+  Params <- cParams
+  MkCase <- MkC
   Names <- cNames
+  Depth = 1
+  Kinds <- WrapKinds
   FixTry = TRUE
   FixPool = TRUE
   RetKeep = TRUE
   ExecFull = TRUE
   AnyFail = FALSE
-INVARIANTS TypeOK Show StartsClean
+INVARIANTS TypeOK StartsClean EmitVec
 PROPERTIES ConstructRestores TryRestoresState AppendOnly
 CHECK_DEADLOCK FALSE
